@@ -18,6 +18,7 @@ import (
 	"math/rand"
 	"os"
 	"path/filepath"
+	"strings"
 	"testing"
 	"time"
 
@@ -215,6 +216,41 @@ func c12NatList(xs []int) string {
 	return coqList(it)
 }
 
+// leftover: a reap plan (or its temporary) or a temporary directory is in the store directory
+func (w *c12World) leftover() bool {
+	ents, err := os.ReadDir(w.dir)
+	c12Must(err)
+	for _, e := range ents {
+		if e.Name() == reapPlanFile || e.Name() == reapPlanFile+tmpSuffix || isTmpName(e.Name()) {
+			return true
+		}
+	}
+	return false
+}
+
+func (w *c12World) resolve(id string) []string {
+	set, err := w.store.getSnapshots()
+	c12Must(err)
+	dbf, wfs, err := set.ResolveFiles(id)
+	c12Must(err)
+	out := []string{dbf.Path}
+	for _, wf := range wfs {
+		out = append(out, wf.Path)
+	}
+	return out
+}
+
+// dirty: which of the files differ from what was written
+func (w *c12World) dirty(ids []int) bool {
+	for _, i := range ids {
+		cur, _ := os.ReadFile(w.paths[i])
+		if !bytes.Equal(cur, w.pristine[i]) {
+			return true
+		}
+	}
+	return false
+}
+
 // run executes one history; returns the Gallina events, the observed codes, and the oracle verdict
 func (w *c12World) run(evs []c12Event) (coqEv []string, obs []string, fail, sig string, nontrivial bool) {
 	touched := map[int]bool{} // files whose bytes or sidecar are not as written
@@ -222,6 +258,13 @@ func (w *c12World) run(evs []c12Event) (coqEv []string, obs []string, fail, sig 
 		if fail == "" {
 			fail, sig = f, s
 		}
+	}
+	emit := func(ev string, code uint64) {
+		if w.leftover() {
+			code += 10
+		}
+		coqEv = append(coqEv, ev)
+		obs = append(obs, coqN(code))
 	}
 	for n, e := range evs {
 		what := fmt.Sprintf("event %d (%s)", n, vJSON(e))
@@ -251,8 +294,7 @@ func (w *c12World) run(evs []c12Event) (coqEv []string, obs []string, fail, sig 
 			}
 			c12Must(os.WriteFile(p, b, 0644))
 			touched[e.File] = true
-			coqEv = append(coqEv, fmt.Sprintf("ECorruptData %s %s", coqNat(e.File), coqN(uint64(crc32.Checksum(b, c12Cast)))))
-			obs = append(obs, coqN(0))
+			emit(fmt.Sprintf("ECorruptData %s %s", coqNat(e.File), coqN(uint64(crc32.Checksum(b, c12Cast)))), 0)
 		case "sidecar":
 			if e.File >= len(w.paths) {
 				continue
@@ -265,24 +307,14 @@ func (w *c12World) run(evs []c12Event) (coqEv []string, obs []string, fail, sig 
 			v ^= 1 << uint(e.Digit%32)
 			c12Must(sidecar.WriteFile(p, v))
 			touched[e.File] = true
-			coqEv = append(coqEv, fmt.Sprintf("ECorruptSidecar %s %s", coqNat(e.File), coqN(uint64(v))))
-			obs = append(obs, coqN(0))
+			emit(fmt.Sprintf("ECorruptSidecar %s %s", coqNat(e.File), coqN(uint64(v))), 0)
 		case "open":
 			metas, lerr := w.store.ListAll()
 			var ids []int
 			var id string
-			var resolved []string
 			if lerr == nil && len(metas) > 0 {
 				id = metas[e.Snap%len(metas)].ID
-				set, err := w.store.getSnapshots()
-				c12Must(err)
-				dbf, wfs, err := set.ResolveFiles(id)
-				c12Must(err)
-				resolved = append(resolved, dbf.Path)
-				for _, wf := range wfs {
-					resolved = append(resolved, wf.Path)
-				}
-				ids = w.ids(resolved)
+				ids = w.ids(w.resolve(id))
 			}
 			for _, i := range ids {
 				if touched[i] {
@@ -290,12 +322,11 @@ func (w *c12World) run(evs []c12Event) (coqEv []string, obs []string, fail, sig 
 				}
 			}
 			ok, delivered := w.consumeOpen(id, e.Recv)
-			coqEv = append(coqEv, "EOpen "+c12NatList(ids))
 			if !ok {
-				obs = append(obs, coqN(2))
+				emit("EOpen "+c12NatList(ids), 2)
 				break
 			}
-			obs = append(obs, coqN(1))
+			emit("EOpen "+c12NatList(ids), 1)
 			// ---- property: what was installed / restored is the data as written
 			var want [][]byte
 			for _, i := range ids {
@@ -323,13 +354,7 @@ func (w *c12World) run(evs []c12Event) (coqEv []string, obs []string, fail, sig 
 				continue
 			}
 			newest, _ := set.Newest()
-			dbf, wfs, err := set.ResolveFiles(newest.id)
-			c12Must(err)
-			resolved := []string{dbf.Path}
-			for _, wf := range wfs {
-				resolved = append(resolved, wf.Path)
-			}
-			ids := w.ids(resolved)
+			ids := w.ids(w.resolve(newest.id))
 			if len(ids) < 2 {
 				continue // nothing to consolidate
 			}
@@ -349,17 +374,17 @@ func (w *c12World) run(evs []c12Event) (coqEv []string, obs []string, fail, sig 
 				}
 			}
 			var want [][]byte
-			dirty := false
 			for _, i := range ids {
 				want = append(want, w.pristine[i])
-				cur, _ := os.ReadFile(w.paths[i])
-				dirty = dirty || !bytes.Equal(cur, w.pristine[i])
 			}
+			dirty := w.dirty(ids)
 			time.Sleep(2 * time.Millisecond)
 			_, c, rerr := w.store.Reap()
 			if rerr != nil || c == 0 {
-				coqEv = append(coqEv, fmt.Sprintf("EReap %s %s %s", c12NatList(ids), c12NatList(gone), coqN(0)))
-				obs = append(obs, coqN(2))
+				emit(fmt.Sprintf("EReap %s %s %s", c12NatList(ids), c12NatList(gone), coqN(0)), 2)
+				if w.leftover() {
+					note(what+": the refused reap left a reap plan (or temporary entries) in the store directory; the next reap or restart will execute it without verification", "C12:failed-reap-leaves-plan")
+				}
 				break
 			}
 			exp := c12Replay(w.scratch, want)
@@ -369,18 +394,36 @@ func (w *c12World) run(evs []c12Event) (coqEv []string, obs []string, fail, sig 
 			if len(w.paths) > 0 {
 				v = uint64(crc32.Checksum(w.pristine[0], c12Cast))
 			}
-			coqEv = append(coqEv, fmt.Sprintf("EReap %s %s %s", c12NatList(ids), c12NatList(gone), coqN(v)))
-			obs = append(obs, coqN(1))
+			emit(fmt.Sprintf("EReap %s %s %s", c12NatList(ids), c12NatList(gone), coqN(v)), 1)
 			if dirty {
 				note(what+": the reap consolidated a data file that no longer matched its recorded checksum and wrote a fresh checksum for the result", "C12:late-corruption-laundered-by-reap")
 			} else if len(w.pristine) != 1 || !bytes.Equal(w.pristine[0], exp) {
 				note(what+": the consolidated database is not the full snapshot with the WAL files applied", "C12:reap-result-differs")
 			}
 		case "restart":
+			all := make([]int, len(w.paths))
+			for i := range all {
+				all[i] = i
+			}
+			dirty := w.dirty(all)
+			before := strings.Join(w.paths, "|")
 			w.store.Close()
 			w.open()
-			coqEv = append(coqEv, "ERestart")
-			obs = append(obs, coqN(0))
+			emit("ERestart", 0)
+			// a restart is not a consumer: it must not rewrite snapshot data
+			old := w.paths
+			oldPristine := w.pristine
+			w.index()
+			if strings.Join(w.paths, "|") != before {
+				if dirty {
+					note(what+": the restart consolidated snapshot files (a leftover reap plan) without verifying them, among them a file that no longer matched its recorded checksum", "C12:late-corruption-laundered-by-reap")
+				} else {
+					note(what+": the restart rewrote the snapshot files", "C12:restart-rewrites-snapshots")
+				}
+				touched = map[int]bool{}
+			} else {
+				w.paths, w.pristine = old, oldPristine
+			}
 		}
 	}
 	return
@@ -545,6 +588,16 @@ func TestVerif_C12(t *testing.T) {
 		{{Ev: "restart"}, {Ev: "open", Recv: "restore"}}, // node start with restore
 		{{Ev: "open", Snap: 1, Recv: "restore"}},         // an older snapshot
 	}
+	tails := [][]c12Event{
+		{{Ev: "open", Recv: "restore"}},
+		{{Ev: "reap"}, {Ev: "open", Recv: "transfer"}},
+		{{Ev: "reap"}, {Ev: "reap"}, {Ev: "open", Recv: "restore"}},
+		{{Ev: "reap"}, {Ev: "restart"}, {Ev: "open", Recv: "restore"}},
+		{{Ev: "reap"}, {Ev: "restart"}, {Ev: "reap"}, {Ev: "open", Recv: "transfer"}},
+		{{Ev: "reap"}, {Ev: "restart"}, {Ev: "open", Recv: "transfer"}, {Ev: "open", Snap: 1, Recv: "restore"}},
+		{{Ev: "restart"}, {Ev: "reap"}, {Ev: "open", Recv: "restore"}},
+		{{Ev: "open", Recv: "transfer"}, {Ev: "reap"}, {Ev: "restart"}, {Ev: "reap"}},
+	}
 	firstUse := [][]c12Event{
 		{{Ev: "open", Recv: "restore"}},
 		{{Ev: "open", Recv: "transfer"}},
@@ -566,7 +619,9 @@ func TestVerif_C12(t *testing.T) {
 					evs = append([]c12Event{}, firstUse[(f+kind+ci)%2]...)
 					evs = append(evs, c12Corruption(rng, f, kind))
 					evs = append(evs, c...)
-					evs = append(evs, c12Event{Ev: "open", Recv: []string{"restore", "transfer"}[(f+kind)%2]})
+					// ... and the history goes on after a consumer that failed: reap again, restart and
+					// every consumer, reap after a failed open
+					evs = append(evs, tails[(f*7+kind*3+ci)%len(tails)]...)
 					c12Run(w, scratch, templates, c12Input{Shape: shape, Events: evs})
 				}
 			}
@@ -577,13 +632,16 @@ func TestVerif_C12(t *testing.T) {
 	for i := 0; i < n; i++ {
 		shape := shapes[rng.Intn(len(shapes))]
 		var evs []c12Event
-		for k, l := 0, 2+rng.Intn(5); k < l; k++ {
-			switch r := rng.Intn(10); {
+		if rng.Intn(2) == 0 {
+			evs = append(evs, c12Event{Ev: "open", Recv: "restore"}) // verified once
+		}
+		for k, l := 0, 3+rng.Intn(6); k < l; k++ {
+			switch r := rng.Intn(12); {
 			case r < 3:
 				evs = append(evs, c12Corruption(rng, rng.Intn(nfiles[shape]), rng.Intn(6)))
-			case r < 7:
+			case r < 6:
 				evs = append(evs, c12Event{Ev: "open", Snap: rng.Intn(2) * rng.Intn(3), Recv: []string{"restore", "transfer"}[rng.Intn(2)]})
-			case r < 9:
+			case r < 10:
 				evs = append(evs, c12Event{Ev: "reap"})
 			default:
 				evs = append(evs, c12Event{Ev: "restart"})
